@@ -97,6 +97,12 @@ func BuildRouterDoc(rng *rand.Rand, ts []tmpl, bf BaseForm, typed bool, perTempl
 				if typed {
 					schema = CloneM(pathVarTypes[rng.Intn(len(pathVarTypes))])
 				}
+				if rng.Intn(4) == 0 {
+					// the same schema reached through a component
+					cn := "PV" + letters(ti) + letters(si)
+					d.Comp("schemas", cn, schema)
+					schema = Ref("schemas", cn)
+				}
 				params = append(params, ParamNode(name, "path", true, schema))
 			} else {
 				path += "/" + s
